@@ -1,7 +1,7 @@
 (* C05 - Protocol rules are enforced before the implementation is called.
    Property theorems only (each closed by [exact] of a lemma proved elsewhere, followed by Print Assumptions). *)
 From Coq Require Import NArith ZArith List Bool.
-From V9 Require Shape.ShapeLib Shape.PSeq.
+From V9 Require Shape.ShapeLib Shape.PSeq Shape.POrder.
 From V9 Require Import Lib.GoSem Lib.Bytes Gen.Consts Codec.Msg Srv.Seq Srv.SeqSpec Srv.SeqProofs.
 Import ListNotations.
 Local Open Scope N_scope.
@@ -123,3 +123,8 @@ Proof. vm_compute. repeat split; reflexivity. Qed.
 Theorem C05_source_handlers_check_before_they_change : ShapeLib.handlers_check_before_they_change = true.
 Proof. exact PSeq.handlers_check_before_they_change_ok. Qed.
 Print Assumptions C05_source_handlers_check_before_they_change.
+
+(* the reply is handed to the send goroutine only after the post-handlers ran: the effects of a request (open state, new fids, clunked fids) are in place before its reply can be seen, hence visible to every request sent after the reply (order of the steps of Respond in the CURRENT source) *)
+Theorem C05_source_respond_order : ShapeLib.respond_order = true.
+Proof. exact POrder.respond_order_ok. Qed.
+Print Assumptions C05_source_respond_order.
